@@ -3,6 +3,8 @@ package seq
 import (
 	"fmt"
 	"sort"
+	"strings"
+	"sync"
 	"testing"
 	"time"
 
@@ -542,6 +544,7 @@ func TestC05Usage(t *testing.T) {
 	r := core.Begin(t, "C05")
 	defer r.End()
 	core.DFS(r, core.Check[lookupCase]{Name: "class-lookups", Gen: genLookups([]string{"Queue"}), Exec: execLookups("C05"), NoJournal: true}, 0)
+	core.DFS(r, core.Check[joinCase]{Name: "join-of-independent-producers", Gen: genJoinIndependent, Exec: execJoinIndependent("C05"), HangLimit: 120 * time.Second}, 0)
 	core.DFS(r, core.Check[longLivedCase]{Name: "long-lived-instance", Gen: genLongLived([]string{"Queue"}, r.N(150000, 1200000)), Exec: execLongLived("C05"), NoJournal: true, HangLimit: 300 * time.Second}, 0)
 }
 
@@ -1062,4 +1065,267 @@ func execSeparateIterators(c separateCase, _ core.Source) (res core.Result) {
 	res.NonTrivial = true
 	res.Classes = append(res.Classes, "kind-"+c.Kind)
 	return
+}
+
+// ---- Join over queues that are fed independently
+
+// Join consolidates the results of independent workers: every input has a producer of its own, some fast (held up
+// on their full queue), some slow (their queue is empty most of the time).  Join takes one value from each input
+// in turn, so the output is the exact round-robin of the inputs, every producer gets rid of all its values and the
+// program terminates.
+type joinCase struct {
+	Inputs int  `json:"inputs"`
+	Cap    uint `json:"cap"`
+	Values int  `json:"values"`
+	Slow   int  `json:"slow"` // index of the slow producer
+}
+
+func execJoinIndependent(prop string) func(joinCase, core.Source) core.Result {
+	return func(c joinCase, _ core.Source) (res core.Result) {
+		n := lib.Notation()
+		Q := col.Queue[int](n)
+		inputs := col.List[col.QueueLike[int]](n).Make()
+		var qs []col.QueueLike[int]
+		for i := 0; i < c.Inputs; i++ {
+			q := Q.MakeWithCapacity(c.Cap)
+			qs = append(qs, q)
+			inputs.AppendValue(q)
+		}
+		var group sync.WaitGroup
+		var got []int
+		ok, p := within(20*time.Second, func() {
+			out := Q.Join(&group, inputs)
+			var producers sync.WaitGroup
+			for i, q := range qs {
+				i, q := i, q
+				producers.Add(1)
+				go func() {
+					defer producers.Done()
+					for v := 0; v < c.Values; v++ {
+						if i == c.Slow {
+							time.Sleep(200 * time.Microsecond)
+						}
+						q.AddValue(v*10 + i)
+					}
+					q.CloseQueue()
+				}()
+			}
+			for {
+				v, more := out.RemoveHead()
+				if !more {
+					break
+				}
+				got = append(got, v)
+			}
+			producers.Wait()
+			group.Wait()
+		})
+		var want []int
+		for v := 0; v < c.Values; v++ {
+			for i := 0; i < c.Inputs; i++ {
+				want = append(want, v*10+i)
+			}
+		}
+		desc := fmt.Sprintf("Join over %d queues of capacity %d, each fed %d values by a producer of its own (producer %d is slow)", c.Inputs, c.Cap, c.Values, c.Slow)
+		switch {
+		case !ok:
+			res.Violation = core.Violate(prop+"/join-independent/hang", "%s: the program did not terminate within 20 s; the output had delivered %d of %d values", desc, len(got), len(want))
+		case p != nil:
+			res.Violation = core.Violate(prop+"/join-independent/panicked", "%s: %s", desc, lib.Short(p))
+		case !lib.EqInts(got, want):
+			res.Violation = core.Violate(prop+"/join-independent/wrong-stream", "%s: the output delivered %v, expected the round-robin %v", desc, got, want)
+		}
+		res.NonTrivial = true
+		return
+	}
+}
+
+func genJoinIndependent(s core.Source) joinCase {
+	c := joinCase{Inputs: 2 + s.Choose(2, "inputs"), Cap: uint(1 + s.Choose(3, "cap")), Values: []int{1, 3, 20}[s.Choose(3, "values")]}
+	c.Slow = s.Choose(c.Inputs, "slow")
+	return c
+}
+
+// ---- thousands of pipelines open at the same time
+
+// A long-lived server keeps one fan-out per topic or connection open.  Every pipeline works, however many there
+// are: each gets one value, every output of every pipeline must receive it while all the others are still open.
+type manyPipelinesCase struct {
+	Fn        string `json:"fn"` // Fork Split Join
+	Pipelines int    `json:"pipelines"`
+}
+
+func execManyPipelines(c manyPipelinesCase, _ core.Source) (res core.Result) {
+	n := lib.Notation()
+	Q := col.Queue[int](n)
+	var group sync.WaitGroup
+	received, expected := 0, 0
+	ok, p := within(120*time.Second, func() {
+		var inputs []col.QueueLike[int]
+		var outputs [][]col.QueueLike[int]
+		for k := 0; k < c.Pipelines; k++ {
+			in := Q.MakeWithCapacity(2)
+			inputs = append(inputs, in)
+			switch c.Fn {
+			case "Fork":
+				outputs = append(outputs, Q.Fork(&group, in, 2).AsArray())
+			case "Split":
+				outputs = append(outputs, Q.Split(&group, in, 2).AsArray())
+			default:
+				second := Q.MakeWithCapacity(2)
+				inputs = append(inputs, second)
+				outputs = append(outputs, []col.QueueLike[int]{Q.Join(&group, col.List[col.QueueLike[int]](n).MakeFromArray([]col.QueueLike[int]{in, second}))})
+			}
+		}
+		for k, in := range inputs {
+			in.AddValue(k)
+			if c.Fn == "Split" {
+				in.AddValue(k)
+			}
+		}
+		// every output gets its value while every pipeline is still open
+		type result struct{ ok bool }
+		results := make(chan result, 4*c.Pipelines)
+		for _, outs := range outputs {
+			for _, out := range outs {
+				per := 1
+				if c.Fn == "Join" {
+					per = 2
+				}
+				for i := 0; i < per; i++ {
+					expected++
+					out := out
+					go func() {
+						_, more := out.RemoveHead()
+						results <- result{more}
+					}()
+				}
+			}
+		}
+		timeout := time.After(60 * time.Second)
+	collect:
+		for received < expected {
+			select {
+			case r := <-results:
+				if r.ok {
+					received++
+				}
+			case <-timeout:
+				break collect
+			}
+		}
+		for _, in := range inputs {
+			in.CloseQueue()
+		}
+		if received == expected {
+			group.Wait()
+		}
+	})
+	desc := fmt.Sprintf("%d %s pipelines open at the same time, one value each", c.Pipelines, c.Fn)
+	switch {
+	case p != nil:
+		res.Violation = core.Violate("C06/many-pipelines/panicked", "%s: %s", desc, lib.Short(p))
+	case !ok || received != expected:
+		res.Violation = core.Violate("C06/many-pipelines/starved/"+c.Fn, "%s: only %d of the %d expected deliveries arrived while all pipelines were open", desc, received, expected)
+	}
+	res.NonTrivial = true
+	res.Classes = append(res.Classes, "fn-"+c.Fn)
+	return
+}
+
+// C06: what no schedule of one small pipeline shows
+func TestC06Usage(t *testing.T) {
+	r := core.Begin(t, "C06")
+	defer r.End()
+	core.DFS(r, core.Check[joinCase]{Name: "join-of-independent-producers", Gen: genJoinIndependent, Exec: execJoinIndependent("C06"), HangLimit: 120 * time.Second}, 0)
+	core.DFS(r, core.Check[manyPipelinesCase]{Name: "many-open-pipelines", Gen: func(s core.Source) manyPipelinesCase {
+		return manyPipelinesCase{Fn: core.Pick(s, []string{"Fork", "Split", "Join"}, "fn"), Pipelines: []int{300, 5000}[s.Choose(2, "pipelines")]}
+	}, Exec: execManyPipelines, HangLimit: 300 * time.Second}, 0)
+}
+
+// ---- a key sequence that is in use
+
+// The keys handed to RemoveValues, GetValues or Extract may come as a queue that another goroutine is consuming
+// (an eviction queue with a second consumer).  Whichever keys the call still sees, it acts on those keys only:
+// an association nobody asked for -- in particular the one under the zero key -- stays, and the result has one
+// value per key that was seen.
+type keysInUseCase struct {
+	Fn     string `json:"fn"` // Catalog.RemoveValues Catalog.GetValues Map.RemoveValues Map.GetValues Catalog.Extract
+	Rounds int    `json:"rounds"`
+}
+
+func execKeysInUse(prop string) func(keysInUseCase, core.Source) core.Result {
+	return func(c keysInUseCase, _ core.Source) (res core.Result) {
+		n := lib.Notation()
+		for round := 0; round < c.Rounds && res.Violation == nil; round++ {
+			var m assocLike[int, int]
+			cat := col.Catalog[int, int](n).Make()
+			if strings.HasPrefix(c.Fn, "Map") {
+				m = col.Map[int, int](n).Make()
+			} else {
+				m = cat
+			}
+			for k := 0; k < 10; k++ {
+				m.SetValue(k, 100+k)
+			}
+			queue := col.Queue[int](n).MakeWithCapacity(16)
+			for k := 2; k < 10; k++ {
+				queue.AddValue(k)
+			}
+			var got []int
+			var extracted col.CatalogLike[int, int]
+			start := make(chan struct{})
+			var wg sync.WaitGroup
+			wg.Add(2)
+			var panicked any
+			go func() {
+				defer wg.Done()
+				defer func() { panicked = recover() }()
+				<-start
+				switch c.Fn {
+				case "Catalog.RemoveValues", "Map.RemoveValues":
+					got = m.RemoveValues(queue).AsArray()
+				case "Catalog.GetValues", "Map.GetValues":
+					got = m.GetValues(queue).AsArray()
+				default:
+					extracted = col.Catalog[int, int](n).Extract(cat, queue)
+				}
+			}()
+			go func() {
+				defer wg.Done()
+				<-start
+				for i := 0; i < 1+round%3; i++ {
+					queue.RemoveHead()
+				}
+			}()
+			close(start)
+			wg.Wait()
+			desc := fmt.Sprintf("%s with the keys 2..9 in a queue that a second goroutine takes heads from (round %d)", c.Fn, round+1)
+			if panicked != nil {
+				res.Violation = core.Violate(prop+"/keys-in-use/panicked", "%s: %s", desc, lib.Short(panicked))
+				return
+			}
+			if m.GetValue(0) != 100 || m.GetValue(1) != 101 {
+				res.Violation = core.Violate(prop+"/keys-in-use/touched-another-key", "%s: the associations under the keys 0 and 1, which nobody asked for, now read %d and %d", desc, m.GetValue(0), m.GetValue(1))
+				return
+			}
+			for _, v := range got {
+				if v < 102 || v > 109 {
+					res.Violation = core.Violate(prop+"/keys-in-use/foreign-value", "%s: the result lists %v; only values under the keys 2..9 can be in it", desc, got)
+					return
+				}
+			}
+			if extracted != nil {
+				for _, k := range extracted.GetKeys().AsArray() {
+					if k < 2 || k > 9 || extracted.GetValue(k) != 100+k {
+						res.Violation = core.Violate(prop+"/keys-in-use/foreign-association", "%s: the result holds %d: %d", desc, k, extracted.GetValue(k))
+						return
+					}
+				}
+			}
+		}
+		res.NonTrivial = true
+		res.Classes = append(res.Classes, "fn-"+c.Fn)
+		return
+	}
 }
